@@ -47,6 +47,9 @@ def run(an, cfg, spec):
 
 
 def check(rep, an, tier):
+    # the bounds every clause below speaks of are the REGISTERED ones: registration keeps / replaces exactly what it is given
+    from .C14 import register_bounds_rule
+    register_bounds_rule(rep, an)
     spec = CC.hooks()
     entry = "range_of_solutions"
     for cfg in lsq_configs(tier, AXES):
@@ -80,6 +83,16 @@ def check(rep, an, tier):
         # choice of sources is no basis of the feasible polytope and is skipped — it must not abort the call for an in-gamut target
         import ast as _ast
         for ev in res.events("ext_call"):
+            if ev.d["dotted"] in ("numpy.linalg.lstsq", "scipy.linalg.lstsq", "numpy.linalg.pinv", "scipy.linalg.pinv") and ev.loops:
+                lq0, lno0 = ev.loops[-1]
+                loop0 = next((n for n in _ast.walk(ev.fn.node) if isinstance(n, _ast.For) and n.lineno == lno0), None)
+                if loop0 is not None and "combinations(" in norm_text(loop0.iter):
+                    rep.violated("R-DISPATCH", "vertices of the solution set are exact solutions of their sub-system", where=ev.loc,
+                                 construct=ev.text()[:80], entry=entry, config=res.config,
+                                 msg="the enumerated square sub-systems are solved in the least-squares sense: for a singular sub-system the "
+                                     "least-squares point does not reproduce the target, yet it is accepted as a vertex when it lies within the "
+                                     "bounds — a source pinned by the target is reported with min = lb and max = ub")
+                continue
             if ev.d["dotted"] not in ("numpy.linalg.solve", "scipy.linalg.solve", "numpy.linalg.inv") or not ev.loops:
                 continue
             # which kind of loop encloses the solve: an enumeration of source subsets (itertools.combinations) or a walk along a range?
